@@ -1,17 +1,19 @@
 import ZkModel.Driver
+import ZkModel.ClDriver
 import ZkModel.L0.HashTest
 import ZkModel.L0.G1Test
 import ZkModel.L0.G2Test
 open Zk
 
-partial def loop (h : IO.FS.Stream) (out : IO.FS.Stream) : IO Unit := do
+partial def loop (f : String → String) (h : IO.FS.Stream) (out : IO.FS.Stream) : IO Unit := do
   let line ← h.getLine
   if line.isEmpty then return ()
   let l := line.trimAscii.toString
-  if l.isEmpty || l.startsWith "#" then loop h out
+  if l.isEmpty || l.startsWith "#" then loop f h out
   else
-    out.putStrLn (Driver.runLine l)
-    loop h out
+    out.putStrLn (f l)
+    out.flush
+    loop f h out
 
 def main (args : List String) : IO UInt32 := do
   if args == ["selftest"] then
@@ -19,5 +21,6 @@ def main (args : List String) : IO UInt32 := do
     for f in fails do IO.println s!"FAIL {f}"
     IO.println s!"selftest failures={fails.length}"
     return (if fails.isEmpty then 0 else 1)
-  loop (← IO.getStdin) (← IO.getStdout)
+  if args == ["cl"] then loop ClDriver.runLine (← IO.getStdin) (← IO.getStdout)
+  else loop Driver.runLine (← IO.getStdin) (← IO.getStdout)
   return 0
